@@ -46,25 +46,25 @@ def Flags.parse (s : String) : Option Flags :=
     else none
   | _ => none
 
-def parseVerb (fl : Flags) (ws : List String) : Option Verb :=
-  -- `request_type: None`, LaunchWorker, ReturnListenSockets: unanswered (F21),
-  -- or answered at once with a failure when the code does so
-  let unsupported : Verb := if fl.answers then .workerBad else .noAnswer
+def parseClientVerb (ws : List String) : Option ClientVerb :=
   match ws with
-  | ["add"] => some .worker
-  | ["bad"] => some .workerBad
+  | ["add"] => some .add
+  | ["bad"] => some .bad
   | ["query"] => some .query
-  | ["status"] => some .query
-  | ["metrics"] => some .query
+  | ["status"] => some .status
+  | ["metrics"] => some .metrics
   | ["hardstop"] => some .hardStop
   | ["softstop"] => some .softStop
-  | ["load", k] => k.toNat?.map Verb.loadState
+  | ["load", k] => k.toNat?.map ClientVerb.load
   | ["loadmissing"] => some .loadMissing
-  | ["list"] => some .localOk
-  | ["none"] => some unsupported
-  | ["launch"] => some unsupported
-  | ["retsock"] => some unsupported
+  | ["list"] => some .list
+  | ["none"] => some .none
+  | ["launch"] => some .launchWorker
+  | ["retsock"] => some .returnListenSockets
   | _ => none
+
+def parseVerb (fl : Flags) (ws : List String) : Option Verb :=
+  (parseClientVerb ws).map (ClientVerb.classify fl.answers)
 
 def parseSt : String → Option St
   | "ok" => some .ok
